@@ -43,7 +43,8 @@ Section Accepted.
     time_ok 0 (until_of cfg 0 0) = true ->
     exists p,
       parse_operation cfg uri_ok url_norm origin_ok time_ok bytes false = Some p /\
-      p_type p = "deactivate" /\ p_suffix p = di_suffix i /\ p_reveal p = di_reveal i /\ p_delta p = None.
+      p_type p = "deactivate" /\ p_suffix p = di_suffix i /\ p_reveal p = di_reveal i /\ p_delta p = None /\
+      parse_signed_deactivate cfg (p_signed p) = Some {| sx_suffix := di_suffix i; sx_key := Some (di_key i); sx_from := 0; sx_until := 0 |}.
   Proof.
     intros Hb Hsize Hrv Hreveal Halg Hkv Hcrv Hnonce Htime. unfold build_deactivate in Hb.
     destruct (String.eqb_spec (di_suffix i) "") as [|Hsfx]; [discriminate|].
@@ -88,7 +89,13 @@ Section Accepted.
     assert (Du : dec_int64 (field "anchorUntil" pm) = Some 0%Z) by (apply (absent_int "anchorUntil" _ _ NDp Evp); reflexivity).
     set (p := {| p_type := "deactivate"; p_suffix := di_suffix i; p_origin := JNull; p_reveal := di_reveal i; p_signed := sd; p_delta := None;
                  p_suffix_data := None; p_time_args := Some (0%Z, until_of cfg 0 0); p_origin_arg := None |}).
-    exists p. split; [|cbn; auto].
+    assert (Hsx : parse_signed_deactivate cfg sd = Some {| sx_suffix := di_suffix i; sx_key := Some (di_key i); sx_from := 0; sx_until := 0 |}).
+    { unfold parse_signed_deactivate.
+      assert (Hsd : parse_signed_data cfg sd = Some j)
+        by (apply parse_signed_data_iff; split; [now apply compact_nonempty|]; split; [exact Hjws|exact Hhr]).
+      assert (Hk' : validate_signing_key cfg (Some (di_key i)) = true) by (apply validate_signing_key_iff; exists (di_key i); auto).
+      rewrite Hsd, Hpo, Dss, Drv, Dk, Df, Du, Hk'. reflexivity. }
+    exists p. split; [|cbn; auto 10].
     apply accept_iff_rules. split; [exact Hsize|]. exists m'. split; [exact Hparse|].
     exists "deactivate". split; [exact Ft|]. right. right. left. split; [reflexivity|].
     exists (di_suffix i), (di_reveal i), sd, j, pm, (di_suffix i), (Some (di_key i)), 0%Z, 0%Z.
@@ -164,7 +171,9 @@ Section AcceptedRecover.
       parse_operation cfg uri_ok url_norm origin_ok time_ok bytes false = Some p /\
       p_type p = "recover" /\ p_suffix p = ri_suffix i /\ p_reveal p = ri_reveal i /\
       p_delta p = Some d' /\ d_update_c d' = ri_update_c i /\ Forall2 jequiv (ri_patches i) (d_patches d') /\
-      jequiv (ri_origin i) (p_origin p).
+      jequiv (ri_origin i) (p_origin p) /\
+      parse_signed_recover cfg (p_signed p) = Some {| sr_delta_hash := dh; sr_key := Some (ri_key i); sr_recovery_c := ri_recovery_c i;
+                                                      sr_origin := p_origin p; sr_from := 0; sr_until := 0 |}.
   Proof.
     intros Hb Hcode Hsize Hrv Hreveal Hluc Hcuc Hlrc Hcrc Hdiff Hldh Hdsize Halg Hcrv Hnonce Htime Hwo Hok Hobj Hwf Hvalid.
     unfold build_recover in Hb.
@@ -242,6 +251,17 @@ Section AcceptedRecover.
     assert (Hcode_dh : mh_code dh0 = Some (ri_code i)) by (apply (code_of_calc sha256 sha512 sha256_length sha512_length _ _ _ Edh)).
     set (p := {| p_type := "recover"; p_suffix := ri_suffix i; p_origin := o'; p_reveal := ri_reveal i; p_signed := sd; p_delta := Some d';
                  p_suffix_data := None; p_time_args := Some (0%Z, until_of cfg 0 0); p_origin_arg := Some o' |}).
+    assert (Hsr : parse_signed_recover cfg sd = Some {| sr_delta_hash := dh0; sr_key := Some (ri_key i); sr_recovery_c := ri_recovery_c i;
+                                                         sr_origin := o'; sr_from := 0; sr_until := 0 |}).
+    { unfold parse_signed_recover.
+      assert (Hsd : parse_signed_data cfg sd = Some j)
+        by (apply parse_signed_data_iff; split; [now apply compact_nonempty|]; split; [exact Hjws|exact Hhr]).
+      assert (Hk' : validate_signing_key cfg (Some (ri_key i)) = true) by (apply validate_signing_key_iff; exists (ri_key i); auto).
+      assert (Hm1 : validate_multihash cfg (ri_recovery_c i) = true) by (apply validate_multihash_iff; split; [exact Hlrc|exists (ri_code i); auto]).
+      assert (Hm2 : validate_multihash cfg dh0 = true) by (apply validate_multihash_iff; split; [exact Hldh|exists (ri_code i); auto]).
+      assert (Hvc : validate_commitment (ri_key i) (ri_recovery_c i) = true)
+        by (unfold validate_commitment; rewrite Hcrc, Ecur; apply String.eqb_neq in Hcur; now rewrite Hcur).
+      rewrite Hsd, Hpo, Ddh, Dk, Drc, Do, Df, Du, Hk', Hm1, Hm2, Hvc. reflexivity. }
     exists p, d'. split; [|cbn; repeat split; auto].
     apply accept_iff_rules. split; [exact Hsize|]. exists m'. split; [exact Hparse|].
     exists "recover". split; [exact Ft|]. right. right. right. split; [reflexivity|].
